@@ -214,6 +214,33 @@ def _patch_v3_class(module):
     module.SnmpV3ClientSocket = V3Both
 
 
+class DeadSession:
+    """stands in for a session whose constructor refused a legal transport configuration: every call raises that error"""
+
+    def __init__(self, exc):
+        self.__dict__["_exc"] = exc
+        self.__dict__["_sock"] = rawdrv.DeadSocket(exc)
+
+    def __getattr__(self, name):
+        def fail(*a, **k):
+            raise self._exc
+        return fail
+
+    def __setattr__(self, name, value):
+        self.__dict__[name] = value
+
+
+def _make_session(cm, rec2, sid, host, **kw):
+    try:
+        return cm.SnmpSession(host, **kw)
+    except (OSError, RuntimeError) as e:
+        # recorded as a refused request: the trace judge accepts a refusal only when the request really cannot be sent
+        name, bases, _ = exc_info(e)
+        rec2.emit(dict(ev="Send", sid=sid, op="get", oids=[], names=[], itstart=[], maxrep=bigint(0), exc=name, bases=bases, nwire=0, wire=[], interp=[],
+                       oversize=False, walk=False))
+        return DeadSession(e)
+
+
 def user_of(cfg):
     from gufo.snmp.user import User, Md5Key, Sha1Key, DesKey, Aes128Key, KeyType
     if cfg.ver != "v3":
@@ -245,17 +272,19 @@ class SyncApi:
         self.ctx = Ctx()
         self.sid = sid
         self.cfgref = [initial_cfg(cfg, engine_given)]
-        self.sock = socket.socket(socket.AF_INET, socket.SOCK_DGRAM)
-        self.sock.bind(("127.0.0.1", 0))
-        port = self.sock.getsockname()[1]
+        self.net = kw.pop("net", None) or rawdrv.next_net()
+        self.sock, _, host, port = rawdrv.agent_socket(self.net)
+        kw.setdefault("tos", self.net[2])
+        kw.setdefault("send_buffer", self.net[3])
+        kw.setdefault("recv_buffer", self.net[4])
         e = dict(ev="Open", sid=sid, maxbuf=4080, apiuser=text(cfg.user), apiauth=cfg.auth, apipriv=cfg.priv)
         e.update(self.cfgref[0].ev())
         self.rec2.emit(e)
         ver = {"v1": SnmpVersion.v1, "v2c": SnmpVersion.v2c, "v3": SnmpVersion.v3}[cfg.ver]
         if auto_version and cfg.ver != "v1":
             ver = None
-        self.session = cm.SnmpSession("127.0.0.1", port=port, community=cfg.community, engine_id=(cfg.engine if engine_given and cfg.ver == "v3" else None),
-                                      user=user_of(cfg), version=ver, timeout=timeout, **kw)
+        self.session = _make_session(cm, self.rec2, sid, host, port=port, community=cfg.community, engine_id=(cfg.engine if engine_given and cfg.ver == "v3" else None),
+                                     user=user_of(cfg), version=ver, timeout=timeout, **kw)
         self.proxy = SockProxy(self.session._sock, self.rec2, sid, self.ctx, self.cfgref)
         self.session._sock = self.proxy
         self.core = AgentCore(self.rec2, self.cfgref, sid, self.ctx, responder)
@@ -311,16 +340,21 @@ class AsyncApi:
 
             def datagram_received(s, data, addr):
                 core.handle(data, lambda d: s.transport.sendto(d, addr), later=loop.call_later)
-        self.transport, self.proto = await loop.create_datagram_endpoint(Proto, local_addr=("127.0.0.1", 0))
+        self.net = kw.pop("net", None) or rawdrv.next_net()
+        host = "[::1]" if self.net[1] == socket.AF_INET6 else self.net[0]
+        self.transport, self.proto = await loop.create_datagram_endpoint(Proto, local_addr=(self.net[0], 0), family=self.net[1])
         port = self.transport.get_extra_info("sockname")[1]
+        kw.setdefault("tos", self.net[2])
+        kw.setdefault("send_buffer", self.net[3])
+        kw.setdefault("recv_buffer", self.net[4])
         e = dict(ev="Open", sid=sid, maxbuf=4080, apiuser=text(cfg.user), apiauth=cfg.auth, apipriv=cfg.priv)
         e.update(self.cfgref[0].ev())
         self.rec2.emit(e)
         ver = {"v1": SnmpVersion.v1, "v2c": SnmpVersion.v2c, "v3": SnmpVersion.v3}[cfg.ver]
         if auto_version and cfg.ver != "v1":
             ver = None
-        self.session = cm.SnmpSession("127.0.0.1", port=port, community=cfg.community, engine_id=(cfg.engine if engine_given and cfg.ver == "v3" else None),
-                                      user=user_of(cfg), version=ver, timeout=timeout, **kw)
+        self.session = _make_session(cm, self.rec2, sid, host, port=port, community=cfg.community, engine_id=(cfg.engine if engine_given and cfg.ver == "v3" else None),
+                                     user=user_of(cfg), version=ver, timeout=timeout, **kw)
         self.proxy = SockProxy(self.session._sock, self.rec2, sid, self.ctx, self.cfgref, quiet_block=True)
         self.session._sock = self.proxy
         return self
